@@ -17,7 +17,7 @@
  *     canary: 0 = bytes around the arena untouched, 1 = modified
  * ops: get set init nullget nullset nullinit badget badset nullout payload
  * path: generic dedicated legacy current
- * place: H (exact-size malloc'ed object, <off> spare bytes in front), E (arena end flush against an inaccessible page), S (arena start at page start + off,
+ * place: G (arena starts <off> bytes below a multiple of 2^32), H (exact-size malloc'ed object, <off> spare bytes in front), E (arena end flush against an inaccessible page), S (arena start at page start + off,
  *        inaccessible page before), R (as E, but the arena's pages are read-only during the call)
  */
 #define _GNU_SOURCE
@@ -165,6 +165,9 @@ static void run_op(const ViewBinding* v, const char* op, const char* path, long 
     } else if (!strcmp(op, "init") || !strcmp(op, "nullinit")) {
         if (legacy) { if (!v->linit) { r->nobind = 1; return; } r->rc = v->linit(hdr, val); }
         else { if (!v->init) { r->nobind = 1; return; } v->init(hdr); }
+    } else if (!strcmp(op, "getalias")) {      /* deprecated getter, result object inside the buffer at hdr + val */
+        if (!v->lget_raw || !f) { r->nobind = 1; return; }
+        r->rc = v->lget_raw(hdr, f->id, hdr + (long)val);
     } else if (!strcmp(op, "payload")) {
         if (!v->payload) { r->nobind = 1; return; }
         r->ret = (uint64_t)(v->payload(hdr) - hdr);
@@ -205,6 +208,20 @@ static void uncanary(Region* reg, uint8_t* arena, size_t alen)
 }
 
 /* ---- helpers for exec_ext.c ---- */
+/* 'G' placement: the arena starts <off> bytes below an address that is a multiple of 2^32 (off = 0: exactly on it; off = length:
+ * it ends there; in between it straddles the boundary).  Code that keeps addresses or address differences in 32 bits sees a
+ * zero, a wrap or an "end before start" here. */
+static uint8_t* gig_boundary(void)
+{
+    static uint8_t* b;
+    if (b) return b;
+    for (unsigned long long k = 32; k < 4096 && !b; k++) {
+        uint8_t* want = (uint8_t*)(k << 32) - 4 * PAGE;
+        void* got = mmap(want, 8 * PAGE, PROT_READ | PROT_WRITE, MAP_PRIVATE | MAP_ANONYMOUS | MAP_FIXED_NOREPLACE, -1, 0);
+        if (got == (void*)want) b = want + 4 * PAGE; else if (got != MAP_FAILED) munmap(got, 8 * PAGE);
+    }
+    return b;
+}
 static Region* cur_reg; static int cur_ro;
 static long src_shift;      /* <off> = offset + 100 * shift: source objects (payloads, paths, values) end <shift> bytes before the guard
                                page, so that the alignment of the source can be chosen independently of its length (C15) */
@@ -215,7 +232,8 @@ uint8_t* ext_place(char place, long off, const uint8_t* bytes, size_t n)
     uint8_t* a;
     src_far = (off >= 1000); off %= 1000;            /* <off> + 1000: source object exactly 2^32 bytes above its destination */
     src_shift = off / 100; off %= 100;
-    if (place == 'S') { cur_reg = &regS; a = regS.data + off; }
+    if (place == 'G' && gig_boundary()) { cur_reg = NULL; a = gig_boundary() - off; }
+    else if (place == 'S') { cur_reg = &regS; a = regS.data + off; }
     else { cur_reg = &regE; a = regE.data + DATA_PAGES * PAGE - n; }
     cur_ro = (place == 'R');
     memcpy(a, bytes, n);
@@ -270,10 +288,10 @@ void ext_result(const char* status, uint64_t ret, long rc, uint64_t out, uint8_t
 {
     printf("R %s ", status); put64(ret); printf(" %ld ", rc); put64(out); putchar(' ');
     puthex(arena, alen);
-    int bad = check_canary(cur_reg, arena, alen);
+    int bad = cur_reg ? check_canary(cur_reg, arena, alen) : 0;
     printf(" %d", bad);
     if (bad) fill_canary(cur_reg);
-    uncanary(cur_reg, arena, alen);
+    if (cur_reg) uncanary(cur_reg, arena, alen);
 }
 
 int main(void)
@@ -305,6 +323,11 @@ int main(void)
                 fprintf(stderr, "##CMD %s %s %s %s\n", tok[1], tok[2], tok[3], tok[4]);
                 do_op(NULL, obj + off, alen, 0, &tok[1]);
                 free(obj);
+                continue;
+            }
+            if (place == 'G' && gig_boundary()) {
+                arena = gig_boundary() - off; memcpy(arena, buf, alen);
+                do_op(NULL, arena, alen, 0, &tok[1]);
                 continue;
             }
             if (place == 'S') { reg = &regS; arena = reg->data + off; }
